@@ -295,6 +295,33 @@ func genCorruptions(r *core.Rand, e *kmodel.Engine) []*corruption {
 				apply: func(tx *bbolt.Tx) error { return bpath(tx, "stores", "indexes", "emps").DeleteBucket([]byte("nick")) }})
 		}
 	}
+	// the nick index bucket is gone AND two entities hold the same nick: the fix run rebuilds the index, the second holder
+	// is a conflict it cannot repair - reported, not a reason to give up
+	{
+		var holders []string
+		for _, id := range emps {
+			if v, _ := m.Ents[kmodel.Emps][id].V["nick"].(string); v != "" {
+				holders = append(holders, id)
+			}
+		}
+		if len(holders) >= 1 && len(emps) >= 2 {
+			a := holders[0]
+			b := emps[0]
+			if b == a {
+				b = emps[1]
+			}
+			va, _ := m.Ents[kmodel.Emps][a].V["nick"].(string)
+			// (the other holders' entries are missing as well and come back with the fix; only the conflict stays)
+			needles := [][]string{{"nick", va, a}, {"nick", va, b}}
+			add(&corruption{Class: "unique-index-bucket-missing-with-duplicate", Desc: fmt.Sprintf("delete the emps.nick index bucket, emps[%q].nick = %q which %q holds", b, va, a), Needles: needles, Unfixable: true,
+				apply: func(tx *bbolt.Tx) error {
+					if err := bpath(tx, "stores", "emps", b).Put([]byte("nk"), strField(va)); err != nil {
+						return err
+					}
+					return bpath(tx, "stores", "indexes", "emps").DeleteBucket([]byte("nick"))
+				}})
+		}
+	}
 	// index-level corruptions not tied to one entity
 	// several adjacent dangling entries in one bucket (fix mode deletes through the cursor it iterates with)
 	nAdj := 1 + r.Intn(4)
@@ -477,7 +504,7 @@ func init() {
 		Promises: func(core.Tier) map[string][]string {
 			return map[string][]string{"class": {"unique-missing", "unique-wrong-target", "unique-stale-value", "unique-dangling-entry", "set-missing-entry", "set-missing-value-key", "set-extra-entry-dangling",
 				"set-extra-entry-existing", "set-empty-value-bucket", "fk-missing-backref", "fk-extra-backref-dangling", "fk-extra-backref-nonmatching", "fk-dangling-dept", "fk-dangling-boss",
-				"link-one-sided-emp-side-removed", "link-one-sided-dept-side-removed", "link-dangling", "duplicate-unique-value", "null-in-non-nullable-unique", "null-in-non-nullable-fk-index", "null-in-non-nullable-fk-constraint", "fk-missing-backref-bucket", "unique-index-bucket-missing", "duplicate-unique-value-unindexed", "set-index-bucket-missing"}}
+				"link-one-sided-emp-side-removed", "link-one-sided-dept-side-removed", "link-dangling", "duplicate-unique-value", "null-in-non-nullable-unique", "null-in-non-nullable-fk-index", "null-in-non-nullable-fk-constraint", "fk-missing-backref-bucket", "unique-index-bucket-missing", "duplicate-unique-value-unindexed", "set-index-bucket-missing", "unique-index-bucket-missing-with-duplicate"}}
 		},
 		MinCounters: func(core.Tier) map[string]int64 {
 			return map[string]int64{"consistent_states_checked": 300, "corrupted_states": 300, "fix_converged_clean": 100, "fix_runs_inside_the_damaging_transaction": 50, "sibling_consistent_states_checked": 500, "extended_store_checked_over_a_run_of_parent_only_neighbours": 50}
@@ -852,6 +879,8 @@ func family(class string) string {
 	// set-missing-entry and set-extra-entry-dangling may be combined with each other (same value bucket)
 	case "link-one-sided-emp-side-removed", "link-one-sided-dept-side-removed":
 		return "watch"
+	case "unique-index-bucket-missing", "unique-index-bucket-missing-with-duplicate":
+		return "nick"
 	}
 	return ""
 }
